@@ -20,6 +20,7 @@ import (
 	"github.com/facebookincubator/tacquito/cmds/server/config/authenticators/bcrypt"
 	"github.com/facebookincubator/tacquito/cmds/server/config/authorizers/stringy"
 	"github.com/facebookincubator/tacquito/cmds/server/config/secret"
+	dnsprov "github.com/facebookincubator/tacquito/cmds/server/config/secret/dns"
 	"github.com/facebookincubator/tacquito/cmds/server/config/secret/prefix"
 	"github.com/facebookincubator/tacquito/cmds/server/handlers"
 	"github.com/facebookincubator/tacquito/cmds/server/loader"
@@ -104,6 +105,9 @@ type RSecret struct {
 	Prefixes  []RPrefix `json:"prefixes"`
 	NoHandler bool      `json:"nohandler"`
 	Span      *RSpan    `json:"span,omitempty"`
+	Kind      string    `json:"kind,omitempty"`  // "" = prefix provider | "dns" = DNS provider (reverse lookup of the remote address)
+	Hosts     []string  `json:"hosts,omitempty"` // dns: names the scope serves
+	HostsB    []BS      `json:"hostsb,omitempty"`
 }
 
 // RSpan: the scope's handler is the SPAN handler (mirrors packets to a TCP destination, then hands over to START)
@@ -334,6 +338,12 @@ func renderCfg(c *RCfg) config.ServerConfig {
 			}
 			h = config.Handler{Type: config.SPAN, Options: o}
 		}
+		if s.Kind == "dns" {
+			hj, _ := json.Marshal(s.Hosts)
+			sc.Secrets = append(sc.Secrets, config.SecretConfig{Name: s.Name, Secret: config.Keychain{Group: "g", Key: string(s.Key)}, Handler: h,
+				Type: config.DNS, Options: map[string]string{"hosts": string(hj)}})
+			continue
+		}
 		sc.Secrets = append(sc.Secrets, config.SecretConfig{Name: s.Name, Secret: config.Keychain{Group: "g", Key: string(s.Key)}, Handler: h,
 			Type: config.PREFIX, Options: map[string]string{"prefixes": string(pj)}})
 	}
@@ -495,6 +505,7 @@ func (r *refRun) loaderFor2(c *RCfg, cached bool) *loader.Loader {
 		loader.SetConfigProvider(config.New()),
 		loader.SetAuthorizerProvider(stringy.New(r.log)),
 		loader.RegisterSecretProviderType(config.PREFIX, prefix.New(r.log)),
+		loader.RegisterSecretProviderType(config.DNS, dnsprov.New(r.log)),
 		loader.RegisterHandlerType(config.START, handlers.NewStart(r.log)),
 		loader.RegisterHandlerType(config.SPAN, handlers.NewSpan(r.log)),
 		loader.RegisterAuthenticator(config.BCRYPT, bcrypt.New(r.log, okSecret{})),
@@ -653,6 +664,18 @@ func (r *refRun) open(c int, addr string, extra E) *refConnState {
 	r.byAddr[ta.String()] = st
 	r.mu.Unlock()
 	ev := E{"e": "open", "c": c, "addr": B(ta.IP), "as": addr}
+	for _, sec := range r.curScen.Cfg.Secrets {
+		if sec.Kind == "dns" {
+			// environment observation: what the resolver of this machine answers for the address (the DNS provider asks the same)
+			names, _ := net.LookupAddr(ta.IP.String())
+			nl := [][]int{}
+			for _, n := range names {
+				nl = append(nl, B([]byte(n)))
+			}
+			ev["names"] = nl
+			break
+		}
+	}
 	for k, v := range extra {
 		ev[k] = v
 	}
